@@ -10,7 +10,7 @@ import (
 
 func init() {
 	register("C11", propMeta{
-		Explanation: "E-CONST + E-PROV + ordering rule + E-GUARD. O-1 path codec agreement: EncodePath and DecodePath use base64.RawURLEncoding and the same format byte '0'; DecodePath decodes the substring after strings.LastIndexByte(rest, '/') so that nothing before the last slash influences the result. O-2 one handler behind both endpoints: ampClientOffers hands the DecodePath result as Arg.Body to the same (*IPC).ClientOffers that clientOffers calls and writes the returned response bytes, unmodified, to the armor encoder, which it closes on every path after creating it. O-3 fronting shape: in both Exchange methods, exactly on the front != \"\" edge, the store req.Host <- req.URL.Host precedes the store req.URL.Host <- front, and neither field is written anywhere else. O-4 status and size are errors, never truncated data: the body is read only through the false edge of StatusCode != 200 (compared for equality with the constant 200); limitedRead wraps the body in LimitedReader{N: limit+1} and returns a non-nil error when limit+1 bytes arrived; the HTTP Exchange returns limitedRead(body, 100000); the AMP Exchange wraps the body in io.LimitReader(_, readLimit+1) before decoding and returns a non-nil error on the N == 0 edge. O-5 cache URL constants: domainPrefix accepts the basic algorithm's result only on err == nil and len(result) <= 63 (measured on the result, not the input), else uses the SHA-256/base32 fallback (lower-case alphabet, no padding); CacheURL appends \"s\" exactly for https, and rejects other schemes, userinfo, non-default ports and a cache query or fragment by error returns. Added after the second seeding round: O-3 requires the Host header value to be the Host of this very request's URL (req.URL.Host), not of another URL the rendezvous knows; O-2b/C14 the IPC error-mapping obligation of C14 on ampClientOffers and clientOffers (an IPC error answers 5xx on both endpoints). Stores and the LimitReader are also found in same-package helpers, with operands mapped back along the call chain. Added after the third seeding round: O-1b the endpoint paths resolved against the broker URL are relative references, so the broker URL's own path is kept.",
+		Explanation: "E-CONST + E-PROV + ordering rule + E-GUARD. O-1 path codec agreement: EncodePath and DecodePath use base64.RawURLEncoding and the same format byte '0'; DecodePath decodes the substring after strings.LastIndexByte(rest, '/') so that nothing before the last slash influences the result. O-2 one handler behind both endpoints: ampClientOffers hands the DecodePath result as Arg.Body to the same (*IPC).ClientOffers that clientOffers calls and writes the returned response bytes, unmodified, to the armor encoder, which it closes on every path after creating it. O-3 fronting shape: in both Exchange methods, exactly on the front != \"\" edge, the store req.Host <- req.URL.Host precedes the store req.URL.Host <- front, and neither field is written anywhere else. O-4 status and size are errors, never truncated data: the body is read only through the false edge of StatusCode != 200 (compared for equality with the constant 200); limitedRead wraps the body in LimitedReader{N: limit+1} and returns a non-nil error when limit+1 bytes arrived; the HTTP Exchange returns limitedRead(body, 100000); the AMP Exchange wraps the body in io.LimitReader(_, readLimit+1) before decoding and returns a non-nil error on the N == 0 edge. O-5 cache URL constants: domainPrefix accepts the basic algorithm's result only on err == nil and len(result) <= 63 (measured on the result, not the input), else uses the SHA-256/base32 fallback (lower-case alphabet, no padding); CacheURL appends \"s\" exactly for https, and rejects other schemes, userinfo, non-default ports and a cache query or fragment by error returns. Added after the second seeding round: O-3 requires the Host header value to be the Host of this very request's URL (req.URL.Host), not of another URL the rendezvous knows; O-2b/C14 the IPC error-mapping obligation of C14 on ampClientOffers and clientOffers (an IPC error answers 5xx on both endpoints). Stores and the LimitReader are also found in same-package helpers, with operands mapped back along the call chain. Added after the third seeding round: O-1b the endpoint paths resolved against the broker URL are relative references, so the broker URL's own path is kept. Added after the fourth seeding round: O-2 what DecodePath receives is the request path minus exactly the routing prefix the endpoint is registered under (TrimPrefix or a HasPrefix-guarded slice, not TrimLeft); O-5b the five steps of the AMP basic algorithm on one value chain, the 0-...-0 wrap tied to hyphens at indexes 2 and 3; O-5c no store through a *url.URL parameter or a URL field of a rendezvous object.",
 		NotDecided:  "conformance of the basic algorithm with the AMP specification on IDN inputs, URL escaping details, byte equality of AMP and POST responses (value-level).",
 		Assumptions: []string{"net/http sends req.Host as the Host header and connects to req.URL.Host", "idna, base32, sha256 behave as documented"},
 	}, runC11)
@@ -126,6 +126,77 @@ func runC11(c *Ctx) {
 				return ok && i == 0 && staticCallee(cc) == dp
 			})
 			c.check(okBody, rule2, "ampClientOffers passes the decoded path as the poll body", p.instrPos(call), "", "the body given to ClientOffers is not the DecodePath result")
+			// what DecodePath receives is the request path minus exactly the routing prefix the endpoint is
+			// registered under (TrimPrefix or a HasPrefix-guarded slice; not TrimLeft, which strips a character set)
+			{
+				route := ""
+				if mainFn := p.Fn("broker", "main"); mainFn != nil {
+					for _, hc := range callsTo(mainFn, "net/http.Handle", "net/http.HandleFunc") {
+						if flows(hc.Common().Args[1], func(v ssa.Value) bool { f, ok := v.(*ssa.Function); return ok && f == aco }) {
+							route, _ = constString(hc.Common().Args[0])
+						}
+					}
+				}
+				var dcall *ssa.Call
+				for _, d := range deepCalls(aco, 2, funcFullName(dp)) {
+					dcall, _ = d.In.(*ssa.Call)
+				}
+				okTrim := false
+				how := ""
+				if dcall != nil && route != "" {
+					flows(dcall.Call.Args[0], func(v ssa.Value) bool {
+						cc, _, ok := callResult(v)
+						if !ok {
+							return false
+						}
+						switch calleeName(cc) {
+						case "strings.TrimPrefix":
+							pre, okp := constString(cc.Call.Args[1])
+							okTrim = okp && pre == route
+							how = "strings.TrimPrefix(path, " + fmt.Sprintf("%q", pre) + ")"
+							return true
+						case "strings.CutPrefix":
+							pre, okp := constString(cc.Call.Args[1])
+							okTrim = okp && pre == route
+							how = "strings.CutPrefix"
+							return true
+						case "strings.TrimLeft", "strings.Trim", "strings.TrimRight", "strings.TrimSuffix":
+							how = calleeName(cc)
+							return true
+						}
+						return false
+					})
+					if how == "" {
+						// path[len(prefix):] behind HasPrefix(path, prefix)
+						flows(dcall.Call.Args[0], func(v ssa.Value) bool {
+							sl, ok := v.(*ssa.Slice)
+							if !ok || sl.Low == nil || sl.High != nil {
+								return false
+							}
+							lo, okl := constInt(sl.Low)
+							if okl && lo == int64(len(route)) {
+								hp := boolEdges(dcall.Parent(), true, func(w ssa.Value) bool {
+									cc, _, okc := callResult(w)
+									if !okc || calleeName(cc) != "strings.HasPrefix" {
+										return false
+									}
+									pre, okp := constString(cc.Call.Args[1])
+									return okp && pre == route
+								})
+								okTrim = len(hp) > 0 && reachableWithout(dcall.Parent(), dcall, hp) == nil
+								how = "slice after HasPrefix"
+								return true
+							}
+							return false
+						})
+					}
+				}
+				if dcall == nil || route == "" || how == "" {
+					c.undecided(rule2, "ampClientOffers strips exactly its routing prefix", p.Pos(aco.Pos()), "route registration, DecodePath call or prefix removal not recognised")
+				} else {
+					c.check(okTrim, rule2, "ampClientOffers strips exactly its routing prefix", p.instrPos(dcall), how+" with the registered route "+fmt.Sprintf("%q", route), "the path handed to DecodePath is not the request path minus exactly the routing prefix ("+how+"): characters of a malformed path are silently dropped (TrimLeft strips a character set) or the prefix differs from the registered route, so ill-formed polls are answered as real ones or well-formed ones rejected")
+				}
+			}
 			// response written unmodified to the encoder
 			respCell := call.Call.Args[2]
 			var enc *ssa.Call
@@ -332,6 +403,24 @@ func (c *Ctx) checkStatusAndLimit(fn *ssa.Function, typ string) {
 		}
 		return false
 	}
+	// &io.LimitedReader{R: resp.Body, N: k}: the store of the body into R is a use as well
+	isBodyStore := func(in ssa.Instruction) bool {
+		st, ok := in.(*ssa.Store)
+		if !ok {
+			return false
+		}
+		if _, f, okf := fieldLoad(st.Val); okf && f.Name() == "Body" {
+			return true
+		}
+		if mi, isMI := st.Val.(*ssa.MakeInterface); isMI {
+			if _, f, okf := fieldLoad(mi.X); okf && f.Name() == "Body" {
+				return true
+			}
+		}
+		return false
+	}
+	isBodyUse0 := isBodyUse
+	isBodyUse = func(in ssa.Instruction) bool { return isBodyUse0(in) || isBodyStore(in) }
 	okStatus := condEdges(fn, true, func(a Atom) bool {
 		if a.Op != token.EQL {
 			return false
@@ -393,9 +482,40 @@ func (c *Ctx) checkStatusAndLimit(fn *ssa.Function, typ string) {
 			k, _ := constInt(lr.Call.Args[1])
 			good = k == 100001
 		}
+		litForm := false
+		if lr == nil {
+			// the literal form &io.LimitedReader{R: body, N: readLimit+1} handed to the decoder
+			allInstrs(fn, func(in ssa.Instruction) {
+				al, ok := in.(*ssa.Alloc)
+				if !ok || !strings.HasSuffix(al.Type().String(), "*io.LimitedReader") {
+					return
+				}
+				nv, rv := structLitField(al, "N"), structLitField(al, "R")
+				if nv == nil || rv == nil {
+					return
+				}
+				k, _ := constInt(nv)
+				body := false
+				if mi, isMI := rv.(*ssa.MakeInterface); isMI {
+					rv = mi.X
+				}
+				if _, f, okf := fieldLoad(rv); okf && f.Name() == "Body" {
+					body = true
+				}
+				used := false
+				for _, d := range deepCalls(fn, 1, "common/amp.NewArmorDecoder") {
+					if ci, okc := d.In.(ssa.CallInstruction); okc && flows(ci.Common().Args[0], func(v ssa.Value) bool { return v == ssa.Value(al) }) {
+						used = true
+					}
+				}
+				if k == 100001 && body && used {
+					good, litForm = true, true
+				}
+			})
+		}
 		c.check(good, rule, key+" decodes through io.LimitReader(body, readLimit+1)", p.Pos(fn.Pos()), "", "the body is not capped at readLimit+1 bytes (with a cap of exactly readLimit an over-long document cut at the limit can still be well-formed and is returned as data)")
 		// N == 0 edge returns an error
-		if lr != nil {
+		if lr != nil || litForm {
 			hit := condEdges(fn, true, func(a Atom) bool {
 				if a.Op != token.EQL {
 					return false
@@ -484,6 +604,8 @@ func (c *Ctx) checkCacheURL() {
 		c.undecided(rule, "amp cache anchors", "-", "anchor does not resolve")
 		return
 	}
+	c.checkBasicPrefixSteps(basic)
+	c.checkURLParamsReadOnly()
 	var bc *ssa.Call
 	for _, ci := range callsIn(dpx) {
 		if staticCallee(ci) == basic {
@@ -623,4 +745,180 @@ func retVal(r *ssa.Return, i int) ssa.Value {
 		}
 	}
 	return v
+}
+
+// checkBasicPrefixSteps: domainPrefixBasic performs the five steps of the AMP
+// cache "basic algorithm" on one value chain: ToUnicode, every "-" doubled,
+// every "." turned into "-", the 0-...-0 wrap exactly when the bytes at positions
+// 3 and 4 (indexes 2 and 3) are both hyphens, ToASCII.
+func (c *Ctx) checkBasicPrefixSteps(basic *ssa.Function) {
+	p := c.P
+	rule := "O-5b basic domain-prefix algorithm"
+	var toU, toA, rep1, rep2 *ssa.Call
+	for _, d := range deepCalls(basic, 2, "golang.org/x/net/idna.ToUnicode", "golang.org/x/net/idna.ToASCII", "strings.Replace", "strings.ReplaceAll") {
+		cc, ok := d.In.(*ssa.Call)
+		if !ok {
+			continue
+		}
+		switch calleeName(cc) {
+		case "golang.org/x/net/idna.ToUnicode":
+			toU = cc
+		case "golang.org/x/net/idna.ToASCII":
+			toA = cc
+		default:
+			from, _ := constString(cc.Call.Args[1])
+			to, _ := constString(cc.Call.Args[2])
+			all := calleeName(cc) == "strings.ReplaceAll"
+			if !all {
+				if k, okk := constInt(cc.Call.Args[3]); okk && k < 0 {
+					all = true
+				}
+			}
+			switch {
+			case from == "-" && to == "--" && all:
+				rep1 = cc
+			case from == "." && to == "-" && all:
+				rep2 = cc
+			}
+		}
+	}
+	fromCall := func(v ssa.Value, cc *ssa.Call) bool {
+		return cc != nil && flows(v, func(w ssa.Value) bool { c2, _, ok := callResult(w); return ok && c2 == cc })
+	}
+	c.check(toU != nil && rep1 != nil && fromCall(rep1.Call.Args[0], toU), rule, "step 2 doubles every hyphen of the ToUnicode result", p.Pos(basic.Pos()), "", "hyphens of the decoded domain are not all doubled (or not on the decoded domain): domains with hyphens collide with domains with dots")
+	c.check(rep1 != nil && rep2 != nil && fromCall(rep2.Call.Args[0], rep1), rule, "step 3 turns every dot of the step-2 result into a hyphen", p.Pos(basic.Pos()), "", "dots are not replaced after the hyphens were doubled: the prefix is not a single label, or dots and hyphens are confused")
+	c.check(toA != nil && rep2 != nil && fromCall(toA.Call.Args[0], rep2), rule, "step 5 Punycode-encodes the result of steps 3-4", p.Pos(basic.Pos()), "", "the value encoded at the end is not the transformed domain")
+	if rep2 == nil {
+		return
+	}
+	fn := rep2.Parent()
+	// step 4: "0-" + x + "-0"
+	var wrap *ssa.BinOp
+	allInstrs(fn, func(in ssa.Instruction) {
+		bo, ok := in.(*ssa.BinOp)
+		if !ok || bo.Op != token.ADD {
+			return
+		}
+		if s, oks := constString(bo.Y); !oks || s != "-0" {
+			return
+		}
+		if in2, ok2 := bo.X.(*ssa.BinOp); ok2 && in2.Op == token.ADD {
+			if s, oks := constString(in2.X); oks && s == "0-" && fromCall(in2.Y, rep2) {
+				wrap = bo
+			}
+		}
+	})
+	if wrap == nil {
+		c.viol(rule, "step 4 wraps the prefix in 0-...-0", p.Pos(basic.Pos()), "no \"0-\" + prefix + \"-0\" built from the step-3 result: a prefix with hyphens at positions 3 and 4 is mistaken for a Punycode label")
+		return
+	}
+	isStep3 := func(v ssa.Value) bool { return fromCall(v, rep2) }
+	byteAt := func(k int64) []Edge {
+		return condEdges(fn, true, func(a Atom) bool {
+			if a.Op != token.EQL {
+				return false
+			}
+			for _, pr := range [][2]ssa.Value{{a.X, a.Y}, {a.Y, a.X}} {
+				var idx ssa.Value
+				var base ssa.Value
+				switch x := strip(pr[0]).(type) {
+				case *ssa.Lookup:
+					idx, base = x.Index, x.X
+				case *ssa.Index:
+					idx, base = x.Index, x.X
+				default:
+					continue
+				}
+				i, oki := constInt(idx)
+				ch, okc := constInt(pr[1])
+				if oki && okc && i == k && ch == '-' && isStep3(base) {
+					return true
+				}
+			}
+			return false
+		})
+	}
+	e2, e3 := byteAt(2), byteAt(3)
+	// equivalent spellings: prefix[2:4] == "--", strings.HasPrefix(prefix[2:], "--")
+	sliceForm := condEdges(fn, true, func(a Atom) bool {
+		if a.Op != token.EQL {
+			return false
+		}
+		for _, pr := range [][2]ssa.Value{{a.X, a.Y}, {a.Y, a.X}} {
+			sl, ok := strip(pr[0]).(*ssa.Slice)
+			if !ok || sl.Low == nil || sl.High == nil {
+				continue
+			}
+			lo, ok1 := constInt(sl.Low)
+			hi, ok2 := constInt(sl.High)
+			s, ok3 := constString(pr[1])
+			if ok1 && ok2 && ok3 && lo == 2 && hi == 4 && s == "--" && isStep3(sl.X) {
+				return true
+			}
+		}
+		return false
+	})
+	sliceForm = append(sliceForm, boolEdges(fn, true, func(v ssa.Value) bool {
+		cc, _, ok := callResult(v)
+		if !ok || calleeName(cc) != "strings.HasPrefix" {
+			return false
+		}
+		sl, oks := strip(cc.Call.Args[0]).(*ssa.Slice)
+		if !oks || sl.Low == nil || sl.High != nil {
+			return false
+		}
+		lo, ok1 := constInt(sl.Low)
+		s, ok3 := constString(cc.Call.Args[1])
+		return ok1 && ok3 && lo == 2 && s == "--" && isStep3(sl.X)
+	})...)
+	good := false
+	if len(e2) > 0 && len(e3) > 0 {
+		ok2, _ := consumedOnlyBehind(fn, wrap, e2)
+		ok3, _ := consumedOnlyBehind(fn, wrap, e3)
+		good = ok2 && ok3
+	} else if len(sliceForm) > 0 {
+		good, _ = consumedOnlyBehind(fn, wrap, sliceForm)
+	}
+	c.check(good, rule, "step 4 wraps exactly when the bytes at positions 3 and 4 are both hyphens", p.instrPos(wrap), "", "the 0-...-0 wrap is not tied to hyphens at positions 3 and 4 of the step-3 result (indexes 2 and 3): prefixes such as a----b are left unwrapped, or others are wrapped needlessly, and the cache host differs from the one the AMP cache computes")
+}
+
+// checkURLParamsReadOnly: the URL builders do not write through the *url.URL
+// values they are given (parameters, or the broker/cache URLs stored in the
+// rendezvous objects): those are the client's configuration, shared by every
+// later poll; the result is built in a new url.URL.
+func (c *Ctx) checkURLParamsReadOnly() {
+	p := c.P
+	rule := "O-5c configured URLs are read-only"
+	scope := append(p.FnsIn("common/amp"), p.FnsIn("client/lib")...)
+	n, bad := 0, 0
+	for _, fn := range scope {
+		allInstrs(fn, func(in ssa.Instruction) {
+			st, ok := in.(*ssa.Store)
+			if !ok {
+				return
+			}
+			fa, ok := st.Addr.(*ssa.FieldAddr)
+			if !ok || !strings.HasSuffix(fa.X.Type().String(), "*net/url.URL") {
+				return
+			}
+			n++
+			base := xstrip(fa.X)
+			shared := ""
+			switch b := base.(type) {
+			case *ssa.Parameter:
+				shared = "parameter " + b.Name()
+			default:
+				if _, f, okf := fieldLoad(base); okf && f.Pkg() != nil && strings.HasPrefix(f.Pkg().Path(), modPath) {
+					shared = "field " + f.Name()
+				}
+			}
+			if shared != "" {
+				bad++
+				c.viol(rule, p.FnName(fn)+" writes through the URL held in "+shared, p.instrPos(st), "a configured URL (broker, cache, front) is modified in place: the first request is right, every later one is built from the modified URL")
+			}
+		})
+	}
+	if bad == 0 {
+		c.ok(rule, "no store through a *url.URL parameter or a URL field of a rendezvous object", "-", fmt.Sprintf("%d store(s) into url.URL fields examined (request URLs and fresh results)", n))
+	}
 }
